@@ -884,7 +884,7 @@ func (p *Parser) ParseSwitchStatement() (*ast.SwitchStatement, error) {
 			if clause.Test == nil || o.Test == nil || clause.Test.Operator != o.Test.Operator {
 				continue
 			}
-			if clause.Test.Right.String() == o.Test.Right.String() {
+			if caseLabel(clause.Test.Right) == caseLabel(o.Test.Right) {
 				return nil, errors.WithStack(DuplicateCase(clause.Test.Meta))
 			}
 		}
@@ -1090,4 +1090,12 @@ func (p *Parser) ParseFunctionCall() (*ast.FunctionCallStatement, error) {
 	stmt.Trailing = p.Trailing()
 
 	return stmt, nil
+}
+
+// caseLabel returns the text that identifies a case label: comments attached to the label are not a part of it
+func caseLabel(e ast.Expression) string {
+	if s, ok := e.(*ast.String); ok {
+		return s.Value
+	}
+	return e.String()
 }
